@@ -15,11 +15,12 @@
 
   Not proved (full statement `PointsEqFilterContains` below; the scanline/Bresenham rasteriser
   against the half-plane test is the geometric core):
-  -- [V] for non-zero area points() equals the row-major points of the bounding box filtered by contains() (`PointsEqFilterContains`): carried by correspondence + oracle only
+  -- [V] for non-zero area a point that is not an edge pixel is yielded by points() iff it passes the closed barycentric test, i.e. points() equals the row-major points of the bounding box filtered by contains() (`PointsEqFilterContains`; proved here: inside the box, row-major, each once, and the edge-pixel half): carried by correspondence + oracle only
 -/
 import EG.Lemmas.TriangleContains
 import EG.Lemmas.TrianglePoints
 import EG.Lemmas.RectPoints
+import EG.Lemmas.TriangleSpan
 namespace EG.C05
 open EG EG.Triangle
 
@@ -79,6 +80,33 @@ theorem triangle_contains_order_independent (t t' : Triangle) (h : t' ∈ orders
   contains_of_mem_orders h p
 
 example : (⟨⟨3, 1⟩, ⟨0, 0⟩, ⟨5, 7⟩⟩ : Triangle) ∈ orders ⟨⟨0, 0⟩, ⟨5, 7⟩, ⟨3, 1⟩⟩ := by decide
+
+/-- Every point of `points()` lies inside `bounding_box()`. -/
+theorem triangle_points_in_bbox (t : Triangle) (h : t.boundingBox.InRange) (p : Pt)
+    (hp : p ∈ t.points) : t.boundingBox.contains p = true :=
+  points_in_bbox t h p hp
+
+example : (⟨⟨0, 0⟩, ⟨5, 1⟩, ⟨4, 6⟩⟩ : Triangle).boundingBox.InRange ∧
+    (⟨3, 2⟩ : Pt) ∈ (⟨⟨0, 0⟩, ⟨5, 1⟩, ⟨4, 6⟩⟩ : Triangle).points := by decide
+
+/-- `points()` is strictly increasing in row-major order: each point once, rows top to bottom,
+columns left to right. -/
+theorem triangle_points_row_major_once (t : Triangle) (h : t.boundingBox.InRange) :
+    t.points.Pairwise Pt.rowMajorLt ∧ t.points.Nodup :=
+  ⟨points_rowMajor t h, points_nodup t h⟩
+
+/-- The edge-line half of the equation: for non-zero area a pixel of one of the three Bresenham
+edge lines is accepted by `contains()` AND yielded by `points()`. -/
+theorem triangle_edge_pixels_in_both (t : Triangle) (h : t.boundingBox.InRange)
+    (a : t.areaDoubled ≠ 0) (p : Pt) (hp : p ∈ t.edgePoints) :
+    t.contains p = true ∧ p ∈ t.points := by
+  have hmem : p ∈ t.points := by
+    unfold edgePoints at hp
+    obtain ⟨l, hl, hpl⟩ := List.mem_flatMap.mp hp
+    exact edge_pixel_mem_points t h (by rw [usedLines_of_nonzero a]; exact hl) hpl
+  exact ⟨(Triangle.contains_iff t p).mpr ⟨points_in_bbox t h p hmem, a, Or.inr hp⟩, hmem⟩
+
+example : (⟨5, 1⟩ : Pt) ∈ (⟨⟨0, 0⟩, ⟨5, 1⟩, ⟨4, 6⟩⟩ : Triangle).edgePoints := by decide
 
 /-- [V] Full statement of the triangle part of C05. -/
 def PointsEqFilterContains : Prop := ∀ (t : Triangle), t.areaDoubled ≠ 0 → t.boundingBox.InRange →
